@@ -36,6 +36,10 @@ claim("C11", "path-sensitive SSA fact walk + error-propagation chain + constant-
       "Structural necessary condition of sign-out for all histories/configurations: success redirect only after Clear returned nil; Manager.Clear always emits the cookie deletion and passes the store-delete error up unchanged (nil only for a missing cookie); the cookie store sweeps every presented cookie matching the quoted name(_N)? pattern and deletes it under its presented name; setters and deleters agree on name and options. Level 'other'.",
       TRUST + " Not decided: replaying histories against a live store, 251-256 byte name truncation, browser behaviour.", "DESIGN.md §5 C11")
 
+claim("C13", "closed-world enumeration of store-family call sites + path-sensitive error-propagation / guard checks",
+      "Structural necessary condition of fail-closed store handling for every fault position at once: no store/lock/ping error is dropped at any of the enumerated call sites (propagated or examined; two reviewed exceptions are structurally checked), cookie only after persist, redirects only after save, readiness 200 only after ping ok, decrypt slicing bounds-guarded. Level 'other'.",
+      TRUST + " Not decided: fault sequences (lost replies, pairs), codec behaviour on corrupt bytes, time-outs.", "DESIGN.md §5 C13")
+
 for i in range(2, 21):
     pid = "C%02d" % i
     if pid not in T:
